@@ -53,6 +53,17 @@ func registerEth(e *Engine) {
 		copy(cp, a)
 		return &SymStr{parts: []strPart{{s: "0x~"}, {kind: "b", cells: cp}}}
 	}
+	hashHex := func(fr *frame, a []value) value {
+		if b, ok := concBytes(a); ok {
+			return "0x" + hex.EncodeToString(b)
+		}
+		cp := make([]value, len(a))
+		copy(cp, a)
+		return &SymStr{parts: []strPart{{s: "0xhash~"}, {kind: "b", cells: cp}}}
+	}
+	e.reg("("+cm+"Hash).Hex", func(fr *frame, args []value) value { return hashHex(fr, []value(args[0].(array))) })
+	e.reg("("+cm+"Hash).String", func(fr *frame, args []value) value { return hashHex(fr, []value(args[0].(array))) })
+	e.reg(cm+"hexutil.Encode", func(fr *frame, args []value) value { return hashHex(fr, args[0].([]value)) })
 	e.reg("("+cm+"Address).Hex", func(fr *frame, args []value) value { return hexOf(fr, args[0].(array)) })
 	e.reg("("+cm+"Address).String", func(fr *frame, args []value) value { return hexOf(fr, args[0].(array)) })
 	e.reg("(*"+cm+"Address).checksumHex", func(fr *frame, args []value) value {
